@@ -175,3 +175,25 @@ func TestReproDotNamesPackaged(t *testing.T) {
 		}
 	}
 }
+
+// A dependency whose name only becomes "..", "." or "" once Metadata.Validate
+// drops its non-printable characters is packaged: Save validates the root chart
+// only, and validateName works on the raw name. The archive then either cannot
+// be loaded or loads without the dependency.
+func TestReproNestedNameCollapsesAfterSanitizing(t *testing.T) {
+	for _, n := range []string{"\x01.\x02.", "..\x01", "​"} {
+		d := tmp(t)
+		root := &chart.Chart{Metadata: &chart.Metadata{APIVersion: "v2", Name: "root", Version: "0.1.0"}}
+		root.AddDependency(&chart.Chart{Metadata: &chart.Metadata{APIVersion: "v2", Name: n, Version: "0.1.0"}})
+		path, err := chartutil.Save(root, d)
+		if err != nil {
+			continue
+		}
+		c, lerr := loader.LoadFile(path)
+		deps := -1
+		if lerr == nil {
+			deps = len(c.Dependencies())
+		}
+		t.Logf("DEFECT PRESENT: Save packaged a dependency named %+q; loading the archive: err=%v, dependencies=%d (1 expected)", n, lerr, deps)
+	}
+}
